@@ -116,6 +116,7 @@ class Symex:
         self.concrete_iters = concrete_iters
         self.assume_reflexive = False
         self.live_iter_mut = False       # iter_mut over a collection of concrete length hands out references to the elements themselves (no havoc of the collection)
+        self.resolve_by_receiver = False  # unresolved trait calls on concrete receivers are dispatched to the receiver type's impl (concrete-shape tables)
         self.fold_ground_eq = False      # structural == on fully concrete aggregates (only sound where no lazily evaluated closure can still mutate them)
         self.models = dict(DEFAULT_MODELS)
         if models:
@@ -133,6 +134,9 @@ class Symex:
         self.root_inst = None
         self._cl_cache = {}
         self.budget_s = budget_s
+        self.max_steps = int(budget_s * 50000)
+        self.deadline = None
+        self.steps = 0
         self.deadline = None
         self.steps = 0
 
@@ -660,6 +664,23 @@ class Symex:
                 return
         # 3. inline
         target = self.resolve_callee(call, inst)
+        if target is None and self.resolve_by_receiver and call.trait and args:
+            # a trait method left unresolved in polymorphic MIR whose receiver is a concrete value here: the impl of the receiver's own type
+            recv = args[0]
+            for _ in range(8):
+                if recv[0] == "ref":
+                    recv = self.load(st, recv[1])
+                elif recv[0] in ("&", "deref"):
+                    recv = recv[1]
+                else:
+                    break
+            if recv[0] == "adt":
+                for im in self.facts.impls_of(call.trait):
+                    if im["self_ty"].split("<")[0] == recv[1] and im.get("crate") in self.inline_crates:
+                        g = self.facts.impl_fn(im, call.method)
+                        if g is not None:
+                            target = (g, None)
+                            break
         if target is not None:
             cf, cinst = target
             if st.depth < self.max_depth and st.stack.count(cf.key) < 2 and not any(r.search(cf.path) for r in self.no_inline):
@@ -1392,6 +1413,31 @@ def m_option_map(ex, st, call, args):
     return gen()
 
 
+def m_option_filter(ex, st, call, args):
+    """Option::filter(opt, pred) when the option's variant is known: None, or Some(x) kept iff pred(&x)"""
+    v = args[0]
+    if v[0] in ("ref", "&"):
+        v = ex.deref_val(st, v)
+    if v[0] != "adt" or v[1] != "core::option::Option":
+        return NotImplemented
+    try:
+        f = args[1]
+        fv = ex.load(st, f[1]) if f[0] == "ref" else (f[1] if f[0] == "&" else f)
+        if fv[0] != "closure":
+            return NotImplemented
+    except Exception:
+        return NotImplemented
+
+    def gen():
+        if v[2] == "None":
+            yield st, "ret", v
+            return
+        for s2, r in _call_closure_paths(ex, st, args[1], [("&", v[3][0])]):
+            for s3, b in _fork_bool(ex, s2, r):
+                yield s3, "ret", (v if b else ("adt", "core::option::Option", "None", ()))
+    return gen()
+
+
 def m_option_is(some):
     def model(ex, st, call, args):
         def gen():
@@ -1520,6 +1566,7 @@ DEFAULT_MODELS = {
     "core::cmp::Ordering::then": m_ord_then,
     "core::cmp::Ordering::reverse": m_ord_reverse,
     "core::option::Option::<T>::map": m_option_map,
+    "core::option::Option::<T>::filter": m_option_filter,
     "core::option::Option::<T>::as_ref": m_option_as_ref,
     "core::option::Option::<T>::as_mut": m_option_as_ref,
     "core::option::Option::<T>::is_some": m_option_is(True),
